@@ -105,40 +105,141 @@ fn rejected_source(t: &mut Tape, base: &str) -> (String, &'static str) {
     }
 }
 
-/// The result of compiling a source does not depend on what the same thread compiled (and was
-/// refused) before.
+/// The result of compiling a source does not depend on what the process did before. Every case
+/// runs in a process of its own (`vcheck __c19hist <tape file>`): state that the library keeps per
+/// thread or per process must not leak from one case into the next, or a failure would not replay
+/// from its tape.
 fn s_history(t: &mut Tape, ctx: &mut Ctx) -> Result<(), Failure> {
-    // each case on a thread of its own: state that the library keeps per thread must not leak
-    // from one case into the next, or a failure would not replay from its tape
-    std::thread::scope(|s| {
-        let h = std::thread::Builder::new().stack_size(8 << 20).spawn_scoped(s, || history_case(t, ctx)).map_err(|e| Failure::internal(format!("cannot start a thread: {e}")))?;
-        match h.join() {
-            Ok(r) => r,
-            Err(p) => {
-                let msg = p.downcast_ref::<String>().cloned().or_else(|| p.downcast_ref::<&str>().map(|s| s.to_string())).unwrap_or_default();
-                Err(Failure::internal(format!("history thread panicked: {msg}")))
-            }
-        }
-    })
+    static SEQ: std::sync::atomic::AtomicU64 = std::sync::atomic::AtomicU64::new(0);
+    // consume nothing from `t` here: the child replays the whole tape
+    let dir = verif_dir().join("target").join("c19");
+    let _ = std::fs::create_dir_all(&dir);
+    let file = dir.join(format!("hist-{}-{}.json", std::process::id(), SEQ.fetch_add(1, std::sync::atomic::Ordering::Relaxed)));
+    std::fs::write(&file, serde_json::to_vec(&t.data()).unwrap_or_default()).map_err(|e| Failure::internal(format!("cannot write scratch file: {e}")))?;
+    let exe = std::env::current_exe().map_err(|e| Failure::internal(e.to_string()))?;
+    let out = Command::new(&exe).arg("__c19hist").arg(&file).stderr(std::process::Stdio::null()).output().map_err(|e| Failure::internal(format!("spawn: {e}")));
+    let _ = std::fs::remove_file(&file);
+    let out = out?;
+    let text = String::from_utf8_lossy(&out.stdout);
+    let Some(line) = text.lines().rev().find(|l| l.starts_with("HIST ")) else {
+        return Err(Failure::internal(format!("history child gave no result (status {:?})", out.status)));
+    };
+    let j: serde_json::Value = serde_json::from_str(&line[5..]).map_err(|e| Failure::internal(format!("history child output: {e}")))?;
+    ctx.evals(j["evals"].as_u64().unwrap_or(0));
+    if let Some(f) = j.get("failure").filter(|f| !f.is_null()) {
+        let fl = Failure::new(f["signature"].as_str().unwrap_or("c19:history"), f["message"].as_str().unwrap_or("")).with(f["detail"].clone());
+        return Err(fl);
+    }
+    ctx.label("history");
+    if j["large"].as_bool() == Some(true) {
+        ctx.label("history:program-above-10kB");
+    }
+    if j["nontrivial"].as_bool() == Some(true) {
+        ctx.nontrivial(j["digest"].as_u64().unwrap_or(0));
+    }
+    let sample = j["sample"].clone();
+    ctx.sample(j["between"].as_u64().unwrap_or(0), || sample.clone());
+    Ok(())
 }
 
-fn history_case(t: &mut Tape, ctx: &mut Ctx) -> Result<(), Failure> {
-    let g = gen::generate(t, GenCfg { params: false, ..GenCfg::small() });
-    let style = Style::from_seed(t.next() as u64);
-    let text = render::render(&g.prog, &style);
-    let first: Vec<_> = [false, true].into_iter().map(|d| compile_bytes(&text, d)).collect();
-    for r in &first {
-        if let Err(p) = r {
-            return Err(Failure::new(format!("panic:{}", crate::run::panic_site(p)), format!("compilation panicked: {p}\n{}", truncate(&text, 1500))));
+/// Child process of the history stream.
+pub fn hist_child_main(path: &str) {
+    let data: Vec<u32> = std::fs::read(path).ok().and_then(|b| serde_json::from_slice(&b).ok()).unwrap_or_default();
+    let mut t = Tape::new(data);
+    let mut info = json!({});
+    let mut evals = 0u64;
+    let r = catch(|| history_case(&mut t, &mut evals, &mut info));
+    let failure = match r {
+        Ok(Ok(())) => serde_json::Value::Null,
+        Ok(Err(f)) => json!({"signature": f.signature, "message": f.message, "detail": f.detail}),
+        Err(p) => {
+            let f = crate::run::panic_failure(&p);
+            json!({"signature": f.signature, "message": f.message, "detail": f.detail})
+        }
+    };
+    info["failure"] = failure;
+    info["evals"] = json!(evals);
+    println!("HIST {}", info);
+}
+
+/// Other things a process does with the library between two compilations.
+fn other_activity(t: &mut Tape) -> &'static str {
+    use simfony::parse::ParseFromStr;
+    match t.index(5) {
+        0 => {
+            let tys = ["u8", "(u8, u16)", "[u8; 4]", "List<u8, 4>", "Option<u8>", "Either<u8, u4>"];
+            let vals = ["1", "(1, 2)", "0xdeadbeef", "list![1, 2, 3]", "Some(1)", "Left(7)", "{ 1 }"];
+            if let Ok(Ok(ty)) = catch(|| simfony::ResolvedType::parse_from_str(tys[t.index(tys.len())])) {
+                let _ = catch(|| simfony::Value::parse_from_str(vals[t.index(vals.len())], &ty).map(|_| ()));
+            }
+            "value-parse"
+        }
+        1 => {
+            let _ = catch(|| simfony::WitnessValues::parse_from_str("mod witness {\n    const A: u8 = 1;\n    const B: (u8, bool) = (2, true);\n}\n").map(|_| ()));
+            "witness-module-parse"
+        }
+        2 => {
+            let _ = catch(|| serde_json::from_str::<simfony::WitnessValues>("{\"A\": {\"value\": \"0x01\", \"type\": \"u8\"}}").map(|_| ()));
+            let _ = catch(|| serde_json::from_str::<simfony::Arguments>("{\"P\": {\"value\": \"(1, 2)\", \"type\": \"(u8, u8)\"}}").map(|_| ()));
+            "json-parse"
+        }
+        3 => {
+            let _ = catch(|| simfony::ResolvedType::parse_from_str(["Either<Option<[u8; 2]>, List<u4, 4>>", "Pubkey", "NoSuchAlias", "[u8; 3"][t.index(4)]).map(|_| ()));
+            "type-parse"
+        }
+        _ => {
+            // a whole example: compile with its arguments, satisfy with its witness file, run
+            let exs = seeds::examples();
+            let ex = &exs[t.index(exs.len())];
+            let _ = catch(|| {
+                let args = ex.args_json.as_ref().and_then(|a| serde_json::from_str::<simfony::Arguments>(a).ok()).unwrap_or_default();
+                if let Ok(c) = simfony::CompiledProgram::new(ex.program.as_str(), args, false) {
+                    for (_, w) in &ex.wit_json {
+                        if let Ok(w) = serde_json::from_str::<simfony::WitnessValues>(w) {
+                            if let Ok(s) = c.satisfy(w) {
+                                let _ = pipe::exec(s.redeem(), &pipe::dummy_env());
+                            }
+                        }
+                    }
+                }
+            });
+            "example-compile-satisfy-run"
         }
     }
-    let n = 150 + t.index(250);
+}
+
+fn history_case(t: &mut Tape, evals: &mut u64, info: &mut serde_json::Value) -> Result<(), Failure> {
+    // the program: generated, or (one in four) a long one whose text is well above 10 kB
+    let large = t.index(4) == 0;
+    let text = if large {
+        let n = 300 + t.index(400);
+        let mut body = String::new();
+        for k in 0..n {
+            body.push_str(&format!("    assert!(jet::eq_32(jet::max_32({k}, witness::W{k}), {}));\n", k + 1));
+        }
+        format!("fn main() {{\n{body}}}\n")
+    } else {
+        let g = gen::generate(t, GenCfg { params: false, ..GenCfg::small() });
+        let style = Style::from_seed(t.next() as u64);
+        render::render(&g.prog, &style)
+    };
+    // first: debug on, then off (the second pass compiles in the other order)
+    let mut first: Vec<Result<(Vec<u8>, String), String>> = vec![Err(String::new()), Err(String::new())];
+    for debug in [true, false] {
+        *evals += 1;
+        first[debug as usize] = compile_bytes(&text, debug).map_err(|p| Failure::new(format!("panic:{}", crate::run::panic_site(&p)), format!("compilation panicked: {p}\n{}", truncate(&text, 1500))))?;
+    }
+    let n = if large { 20 + t.index(60) } else { 150 + t.index(250) };
     let mut kinds = std::collections::BTreeMap::new();
     let mut n_rejected = 0;
     for _ in 0..n {
-        let (src, kind) = rejected_source(t, &text);
+        if t.index(4) == 0 {
+            *kinds.entry(other_activity(t)).or_insert(0u32) += 1;
+            continue;
+        }
+        let (src, kind) = rejected_source(t, if large { "fn main() { let x: u8 = 1; }" } else { &text });
         for d in [false, true] {
-            ctx.evals(1);
+            *evals += 1;
             match compile_bytes(&src, d) {
                 Ok(Err(_)) => n_rejected += 1,
                 Ok(Ok(_)) => {}
@@ -148,10 +249,10 @@ fn history_case(t: &mut Tape, ctx: &mut Ctx) -> Result<(), Failure> {
         }
         *kinds.entry(kind).or_insert(0u32) += 1;
     }
-    for (d, debug) in [false, true].into_iter().enumerate() {
-        ctx.evals(1);
-        let again = compile_bytes(&text, debug).map_err(|p| Failure::new(format!("panic:{}", crate::run::panic_site(&p)), format!("compilation panicked after {n} other sources: {p}")))?;
-        let before = first[d].as_ref().expect("checked above");
+    for debug in [false, true] {
+        *evals += 1;
+        let again = compile_bytes(&text, debug).map_err(|p| Failure::new(format!("panic:{}", crate::run::panic_site(&p)), format!("compilation panicked after {n} other activities: {p}")))?;
+        let before = &first[debug as usize];
         if fingerprint(&again) != fingerprint(before) {
             let what = match &again {
                 Err(e) => format!("error: {}", pipe::last_line(e)),
@@ -159,16 +260,22 @@ fn history_case(t: &mut Tape, ctx: &mut Ctx) -> Result<(), Failure> {
             };
             return Err(Failure::new(
                 "c19:result-depends-on-earlier-compilations",
-                format!("the same source (debug={debug}) compiled to {} first and to {} ({what}) after the thread had compiled {n} other sources, {n_rejected} of them rejected\n{}", fingerprint(before), fingerprint(&again), truncate(&text, 2000)),
+                format!("the same source (debug={debug}, {} bytes) compiled to {} first and to {} ({what}) after the process had done {n} other things with the library ({n_rejected} rejected compilations; {:?})\n{}", text.len(), fingerprint(before), fingerprint(&again), kinds, truncate(&text, 2000)),
             )
-            .with(json!({"program": text, "debug": debug, "sources_between": n})));
+            .with(json!({"program": truncate(&text, 20000), "debug": debug, "activities_between": n})));
         }
     }
-    if n_rejected > 0 && first[0].as_ref().map_or(false, |r| r.is_ok()) {
-        ctx.nontrivial(digest(&[text.as_bytes(), &n.to_le_bytes()]));
+    // debug and plain builds of one source are different programs whenever it has a tracked call
+    if let (Ok((b0, _)), Ok((b1, _))) = (&first[0], &first[1]) {
+        if large && b0 == b1 {
+            return Err(Failure::new("c19:debug-flag-ignored", format!("a program with {} asserts compiles to the same bytes with and without debug symbols\n{}", text.matches("assert!").count(), truncate(&text, 600))));
+        }
     }
-    ctx.label("history");
-    ctx.sample(n as u64, || json!({"program": truncate(&text, 600), "sources_between": n, "rejected_compilations": n_rejected, "kinds": kinds}));
+    info["large"] = json!(text.len() > 10_000);
+    info["nontrivial"] = json!(n_rejected > 0 && first[0].is_ok());
+    info["digest"] = json!(digest(&[text.as_bytes(), &n.to_le_bytes()]));
+    info["between"] = json!(n);
+    info["sample"] = json!({"program": truncate(&text, 600), "activities_between": n, "rejected_compilations": n_rejected, "kinds": kinds});
     Ok(())
 }
 
@@ -305,7 +412,7 @@ pub fn streams() -> Vec<Stream> {
 pub fn def() -> PropertyDef {
     PropertyDef {
         id: "C19",
-        rule: "programs = the shipped examples + 300 (thorough 5000) generated programs, every fifth one a near-miss edit (often rejected, for the error side), one per chunk a program of 300-700 statements whose encoding is several KiB long, in chunks of 16 x {debug off, on}. Per chunk: 5 in-process compilations of every program (fresh CompiledProgram each, interleaved with the other programs of the chunk) must give identical commit encodings and CMRs; 6 (thorough 32) separately started processes (each with its own hash seeds) must report the same digest of encoding + CMR, or the same error status; `simc FILE [--debug]` built from /repo must print `Program:` + base64 of exactly the library's commit encoding and exit 0 when the library returns Ok, and exit non-zero with a non-empty stderr and no `Program:` line when the library returns Err. stream history: a generated program is compiled (debug off / on), then the same thread compiles 150-400 other sources of which most are rejected at different stages (list bound not a power of two, incompatible match arms, oversized array size, literal out of range, undefined name, grammar error, token mutants and truncations of the program; each nested 0-47 blocks deep), then the program again: same bytes and CMR, or the same error status. evaluations = compilations compared + simc runs. Non-trivial = accepted program with >= 3 functions / aliases / witnesses (so the hash maps have something to reorder), debug on; distinct by digest of the text.",
+        rule: "programs = the shipped examples + 300 (thorough 5000) generated programs, every fifth one a near-miss edit (often rejected, for the error side), one per chunk a program of 300-700 statements whose encoding is several KiB long, in chunks of 16 x {debug off, on}. Per chunk: 5 in-process compilations of every program (fresh CompiledProgram each, interleaved with the other programs of the chunk) must give identical commit encodings and CMRs; 6 (thorough 32) separately started processes (each with its own hash seeds) must report the same digest of encoding + CMR, or the same error status; `simc FILE [--debug]` built from /repo must print `Program:` + base64 of exactly the library's commit encoding and exit 0 when the library returns Ok, and exit non-zero with a non-empty stderr and no `Program:` line when the library returns Err. stream history (one process per case): a generated program - one in four a long one of 300-700 statements, 15-35 kB of text - is compiled (debug on, then off), then the process does 150-400 (long program: 20-80) other things with the library: compilations of sources that are rejected at different stages (list bound not a power of two, incompatible match arms, oversized array size, literal out of range, undefined name, grammar error, token mutants and truncations of the program; each nested 0-47 blocks deep), value / type / witness-module / JSON parsing, a shipped example compiled, satisfied and run; then the program again (debug off, then on): same bytes and CMR, or the same error status. evaluations = compilations compared + simc runs. Non-trivial = accepted program with >= 3 functions / aliases / witnesses (so the hash maps have something to reorder), debug on; distinct by digest of the text.",
         assumptions: &["an order dependence whose probability per process is tiny can be missed: N processes only give 1 - 2^-N confidence for a two-way ordering"],
         streams,
         health: &[],
